@@ -6,7 +6,8 @@ import json, os, queue, subprocess, sys, threading
 sys.path.insert(0, os.path.dirname(os.path.abspath(__file__)))
 import mutsweep as ms
 ROOT, REPO = ms.ROOT, ms.REPO
-OUT = os.path.join(ROOT, "mutants", "recheck.jsonl")
+ALL = "--all-checks" in sys.argv  # also the checks of the first pass (after the harness changed)
+OUT = os.path.join(ROOT, "mutants", "recheck2.jsonl" if ALL else "recheck.jsonl")
 
 def neighbours(path):
     if "logqlmetric" in path:
@@ -41,8 +42,11 @@ def worker(k, q, lock):
         try:
             rec["checks2"] = {}
             status = "survived"
-            for c in neighbours(mu["file"]):
-                if c in (mu.get("checks") or {}):
+            order = neighbours(mu["file"])
+            if ALL:
+                order = list(dict.fromkeys(list((mu.get("checks") or {}).keys()) + order))
+            for c in order:
+                if c in (mu.get("checks") or {}) and not ALL:
                     continue
                 rc, out = ms.sh(["python3", os.path.join(ROOT, "run.py"), c, "quick"], env=env, timeout=1500)
                 rec["checks2"][c] = rc
@@ -65,9 +69,13 @@ def main():
         done = {json.loads(l)["id"] for l in open(OUT)}
     q = queue.Queue()
     n = 0
-    for l in open(os.path.join(ROOT, "mutants", "sweep.jsonl")):
+    src = os.path.join(ROOT, "mutants", "sweep.jsonl")
+    caught1 = set()
+    if ALL and os.path.exists(os.path.join(ROOT, "mutants", "recheck.jsonl")):
+        caught1 = {json.loads(l)["id"] for l in open(os.path.join(ROOT, "mutants", "recheck.jsonl")) if json.loads(l)["status2"] == "caught"}
+    for l in open(src):
         r = json.loads(l)
-        if r["status"] == "survived" and r["id"] not in done:
+        if r["status"] in ("survived", "inconclusive") and r["id"] not in done and r["id"] not in caught1:
             q.put(r); n += 1
     print(n, "survivors to re-check", flush=True)
     lock = threading.Lock()
